@@ -47,7 +47,8 @@ def tame(rec, lim=1 << 26):
         return True
     for key in ('v', 'w', 'av', 'atw'):
         for n_, d_ in rec[key]:
-            if d_ != 0 and (abs(n_) > 20000 or d_ > 1024):
+            # (d_ == 0: the observed float is not a small rational - solves with wide denominators - judged in floats)
+            if d_ == 0 or abs(n_) > 20000 or d_ > 1024:
                 return False
     return dot_ok(rec['w'], rec['av']) and dot_ok(rec['atw'], rec['v'])
 
